@@ -1826,6 +1826,17 @@ def app_project_runner__ProjectRunner_scaleUpProcess : List String := [
   "if err != nil {",
   "return",
   "}",
+  "for k, v := range procFromConf.Vars {",
+  "if n, ok := v.(json.Number); ok {",
+  "if i, err := strconv.Atoi(n.String()); err == nil {",
+  "procFromConf.Vars[k] = i",
+  "} else if strings.ContainsAny(n.String(), \".eE\") {",
+  "if f, err := n.Float64(); err == nil {",
+  "procFromConf.Vars[k] = f",
+  "}",
+  "}",
+  "}",
+  "}",
   "procFromConf.ReplicaNum = origScale + i",
   "procFromConf.Replicas = scale",
   "procFromConf.ReplicaName = procFromConf.CalculateReplicaName()",
